@@ -2,6 +2,7 @@ package zzh
 
 import (
 	"strconv"
+	"strings"
 
 	"github.com/alowayed/go-univers/pkg/spec/vers"
 	"github.com/alowayed/go-univers/pkg/univers"
@@ -67,4 +68,107 @@ func VXSelfVersReport(r, v string) { vv.Assert(false, strconv.Itoa(versCode(r, v
 
 func VXSelfVers(r, v string, want int) {
 	vv.Assert(versCode(r, v) == want, "selfcheck: engine and native execution disagree (vers)")
+}
+
+// Symbolic translator validation (vx selfcheck, "std" part): library functions the engine
+// executes from source (bit operations in strings.EqualFold) or through an intrinsic are compared
+// with byte-loop models over all strings of a template. flip negates the expectation: that twin
+// must be reported, otherwise the lemma passed vacuously.
+
+func lowerByte(c byte) byte {
+	if c >= 'A' && c <= 'Z' {
+		return c + 32
+	}
+	return c
+}
+
+func modelFold(a, b string) bool {
+	if len(a) != len(b) {
+		return false
+	}
+	for i := 0; i < len(a); i++ {
+		if lowerByte(a[i]) != lowerByte(b[i]) {
+			return false
+		}
+	}
+	return true
+}
+
+func VXStdFold(a, b string, flip bool) {
+	vv.Assert(xor(strings.EqualFold(a, b) == modelFold(a, b), flip), "selfcheck: strings.EqualFold differs from the ASCII model")
+}
+
+func modelLower(s string) string {
+	b := make([]byte, len(s))
+	for i := 0; i < len(s); i++ {
+		b[i] = lowerByte(s[i])
+	}
+	return string(b)
+}
+
+func isSpaceByte(c byte) bool {
+	return c == ' ' || c == '\t' || c == '\n' || c == '\v' || c == '\f' || c == '\r'
+}
+
+func modelTrimSpace(s string) string {
+	i, j := 0, len(s)
+	for i < j && isSpaceByte(s[i]) {
+		i++
+	}
+	for j > i && isSpaceByte(s[j-1]) {
+		j--
+	}
+	return s[i:j]
+}
+
+func modelIndex(s, sub string) int {
+	for i := 0; i+len(sub) <= len(s); i++ {
+		if s[i:i+len(sub)] == sub {
+			return i
+		}
+	}
+	return -1
+}
+
+func VXStdStrings(a, b string, flip bool) {
+	ok := strings.ToLower(a) == modelLower(a)
+	ok = ok && strings.TrimSpace(a) == modelTrimSpace(a)
+	ok = ok && strings.Index(a, b) == modelIndex(a, b)
+	ok = ok && strings.Contains(a, b) == (modelIndex(a, b) >= 0)
+	ok = ok && strings.HasPrefix(a, b) == (len(a) >= len(b) && a[:len(b)] == b)
+	ok = ok && strings.HasSuffix(a, b) == (len(a) >= len(b) && a[len(a)-len(b):] == b)
+	vv.Assert(xor(ok, flip), "selfcheck: a strings function differs from its byte-loop model")
+}
+
+func modelAtoi(s string) (int, bool) {
+	i := 0
+	neg := false
+	if len(s) > 0 && (s[0] == '+' || s[0] == '-') {
+		neg = s[0] == '-'
+		i = 1
+	}
+	if i == len(s) {
+		return 0, false
+	}
+	n := 0
+	for ; i < len(s); i++ {
+		if s[i] < '0' || s[i] > '9' {
+			return 0, false
+		}
+		n = n*10 + int(s[i]-'0')
+	}
+	if neg {
+		n = -n
+	}
+	return n, true
+}
+
+func VXStdAtoi(a string, flip bool) {
+	n, err := strconv.Atoi(a)
+	m, ok := modelAtoi(a)
+	good := (err == nil) == ok
+	if ok && err == nil {
+		good = n == m
+	}
+	vv.Assert(xor(good, flip), "selfcheck: strconv.Atoi differs from the decimal model")
 }
